@@ -161,6 +161,7 @@ REASON_SIG = {
     "esds-size-field-rewritten": ("esds", "model:noncanonical-size-field-rewritten"),
     "piff-senc-sample-count-zero-data-dropped": ("uuid", "model:piff-senc-sample-count-zero-data-dropped-size-kept"),
     "trun-data-offset-zero": ("trun", "accepted-but-encode-error"),
+    "wvtt-prefix-cut-short": ("leaf-decoders", "header-size-ignored"),     # C01_wvtt_short_refuted
     "moof-trun-data-offset-zero": ("trun", "accepted-but-encode-error"),
 }
 NORMALISATIONS = ("large-size-header-compacted", "trak-reordered")
